@@ -103,6 +103,7 @@ def run(tier, seed, model_ok, spec_ok, replay=None):
     n = 700 if tier == "quick" else 20000
     cases, direct = [], []
     skipped = 0
+    tupled = 0
     for i in range(n):
         doc = g.document(3, 4)
         depth = g.r.choice([0, 0, 0, 1, 1, 2, 3])
@@ -159,6 +160,20 @@ def run(tier, seed, model_ok, spec_ok, replay=None):
                 t = Bin(op, t, kx)
             long_list = (op, kids)
         normalise_cond(t)   # specs are JSON/YAML-like: no tuples, named types only (also inside data-path arguments)
+        # ... except that a spec written as a Python structure may give a TUPLE where a list can go: as the whole argument of a
+        # one-parameter callable it stays a tuple (Value.equal_to((1, 2)) is not Value.equal_to([1, 2])); for callables that unpack
+        # their arguments (several parameters, *args) a tuple of arguments means what the list means
+        for l in t.leaves():
+            if l.kwargs or g.r.random() > 0.15 or "DataType" in l.cls or l.method in ("is_instance", "keys_is_instance"):
+                continue
+            sigs = [(pk, va, kw) for (m, pk, va, kw) in cg.methods[l.cls] if m == l.method]
+            if not sigs:
+                continue
+            pk, va, kw = sigs[0]
+            plain = lambda x: not isinstance(x, (dict, PathT))
+            if len(pk) == 1 and va is None and kw is None and len(l.args) == 1 and isinstance(l.args[0], list) and all(plain(x) for x in l.args[0]):
+                l.args[0] = tuple(l.args[0])
+                tupled += 1
         spec = sg.cond_spec(t)
         if long_list is not None and spec is not None:
             parts_ = [sg.cond_spec(kx) for kx in long_list[1]]
@@ -182,7 +197,7 @@ def run(tier, seed, model_ok, spec_ok, replay=None):
            "samples": [{k: v for k, v in c.descr.items() if k != "coq"} for c in cases[:3]],
            "k_mismatch": [cases[i].descr for i in k_bad],
            "o_violations": [cases[i].descr for i in o_bad] + direct,
-           "distribution": dict(dist, skipped_no_spec_form=skipped)}
+           "distribution": dict(dist, skipped_no_spec_form=skipped, tuple_as_whole_argument=tupled)}
     if err:
         res["k_mismatch"] = res["k_mismatch"] or [{"coq-eval-error": err}]
     return res
